@@ -10,7 +10,9 @@ CHECKS = {}
 def reg(i, technique, text, note):
     CHECKS[i] = (technique, text, note)
 
-exec(open(os.path.join(ROOT, "tools", "manifest_checks.py")).read())
+import glob
+for f in sorted(glob.glob(os.path.join(ROOT, "harness", "props", "c*", "manifest_entry.py"))):
+    exec(open(f).read())
 
 baseline = "cd /repo && cargo test --workspace --no-fail-fast --offline"
 m = {
